@@ -1,5 +1,6 @@
 import LdkModel.Driver.Util
 import LdkModel.Model.Punish
+import LdkModel.Model.JusticeChain
 import LdkModel.Generated.Package
 namespace Ldk.Driver
 open Ldk Ldk.Secrets Ldk.Punish Ldk.Pkg
@@ -85,38 +86,101 @@ def showOutpoints (os : List Outpoint) : String :=
   if ts.isEmpty then "-" else
   " ".intercalate (ts.map fun t => if t.1 == 0 then s!"c{t.2.2}" else s!"s{t.2.1}:{t.2.2}")
 
+/-- `c<vout>` | `s<k>:<vout>` -/
+def outpointOf (s : String) : Option Outpoint :=
+  if s.startsWith "c" then some (.commit (nat! ((s.drop 1).toString)))
+  else if s.startsWith "s" then
+    match splitOnChar ((s.drop 1).toString) ':' with
+    | [k, v] => some (.second (nat! k) (nat! v))
+    | _ => none
+  else none
+
+/-- `C` | `S<k>` | `J<outpoint>+<outpoint>…` -/
+def btxOf (s : String) : Option Justice.BTx :=
+  if s == "C" then some .commit
+  else if s.startsWith "S" then some (.second (nat! ((s.drop 1).toString)))
+  else if s.startsWith "J" then ((splitOnChar ((s.drop 1).toString) '+').mapM outpointOf).map .justice
+  else none
+
+def outpointKey : Outpoint → Nat × Nat × Nat
+  | .commit v => (0, 0, v)
+  | .second k v => (1, k, v)
+
+/-- `claimable_outpoints` as `outpoint@creation_height …`, sorted by outpoint -/
+def showClaims (W : Justice.World) (st : Justice.St) : String :=
+  let es := W.allOutpoints.filterMap fun X => (st.claim X).map fun c => (outpointKey X, c.created)
+  let keys := sortTriples (es.map (·.1))
+  if keys.isEmpty then "-" else
+  " ".intercalate (keys.map fun t =>
+    let name := if t.1 == 0 then s!"c{t.2.2}" else s!"s{t.2.1}:{t.2.2}"
+    match es.find? (fun e => e.1 == t) with
+    | some e => s!"{name}@{e.2}"
+    | none => name)
+
+structure JusticeState where
+  mon : Mon SymSecret
+  chain : Option (Justice.World × Justice.St)
+
 /-- ops:  reset
           commit <n> <htlc,…|->                  (provide_latest_counterparty_commitment_tx)
           secret <n>                             (provide_secret with the sender's secret of n)
           confirm <n> <out,…> <v+v,…|->          (the cheater's tx of number n confirms, then the listed
                                                   second-stage txs) → claimed outpoints, sorted
-          data <n>                               → the HTLC list still stored for n -/
+          data <n>                               → the HTLC list still stored for n
+          chain <tip> <n> <out,…> <v+v,…|->      start the chain model of Model/JusticeChain.lean at height <tip> for the
+                                                  revoked commitment n; the last argument lists EVERY second-stage
+                                                  transaction the cheater holds (the commitment outputs each spends)
+          conn <tx,…|->                          a block is connected (`C`, `S<k>`, `J<outpoint>+…`) → `claimable_outpoints`
+          disc <newTip>                          blocks above <newTip> are disconnected → `claimable_outpoints`
+          rebc | reload                          → `claimable_outpoints` -/
 def c06justice : Drv where
-  σ := Mon SymSecret
-  init := Mon.new P48sym
-  step := fun m ws =>
+  σ := JusticeState
+  init := { mon := Mon.new P48sym, chain := none }
+  step := fun s ws =>
     let P := P48sym
+    let m := s.mon
+    let chainStep (op : Justice.Op) : JusticeState × String :=
+      match s.chain with
+      | none => (s, "no-chain")
+      | some (W, st) =>
+        match Justice.step W st op with
+        | some (st', _) => ({ s with chain := some (W, st') }, showClaims W st')
+        | none => (s, "rejected")
     match ws with
-    | ["reset"] => (Mon.new P, "ok")
+    | ["reset"] => ({ mon := Mon.new P, chain := none }, "ok")
     | ["commit", n, hs] =>
       match listOf htlcOf hs with
-      | some htlcs => (provideCommitment m (nat! n) htlcs, "ok")
-      | none => (m, "bad-op")
+      | some htlcs => ({ s with mon := provideCommitment m (nat! n) htlcs }, "ok")
+      | none => (s, "bad-op")
     | ["secret", n] =>
       match provideSecret P m (nat! n) (secretOf P .seed (nat! n)) with
-      | some m' => (m', "ok")
-      | none => (m, "err")
+      | some m' => ({ s with mon := m' }, "ok")
+      | none => (s, "err")
     | ["confirm", n, outs, second] =>
       match listOf outOf outs, listOf (fun t => some ((splitOnChar t '+').map nat!)) second with
       | some os, some sec =>
         let b : Body := { outputs := os, htlcs := [] }
-        (m, showOutpoints (punish P m (nat! n) (b.tx (secretOf P .seed (nat! n))) sec))
-      | _, _ => (m, "bad-op")
+        (s, showOutpoints (punish P m (nat! n) (b.tx (secretOf P .seed (nat! n))) sec))
+      | _, _ => (s, "bad-op")
     | ["data", n] =>
       match m.claimable.get (nat! n) with
-      | none => (m, "none")
-      | some d => (m, if d.isEmpty then "-" else ",".intercalate (d.map fun (h, _) =>
+      | none => (s, "none")
+      | some d => (s, if d.isEmpty then "-" else ",".intercalate (d.map fun (h, _) =>
           s!"{h.amtMsat}:{if h.offered then 1 else 0}:{h.cltv}:{match h.outIdx with | some i => toString i | none => "-"}"))
-    | _ => (m, "bad-op")
+    | ["chain", tip, n, outs, second] =>
+      match listOf outOf outs, listOf (fun t => some ((splitOnChar t '+').map nat!)) second with
+      | some os, some sec =>
+        let b : Body := { outputs := os, htlcs := [] }
+        let W := Justice.World.ofMonitor P m (nat! n) (b.tx (secretOf P .seed (nat! n))) sec Ldk.BREAKDOWN_TIMEOUT
+        ({ s with chain := some (W, Justice.St.init (nat! tip)) }, showOutpoints W.allOutpoints)
+      | _, _ => (s, "bad-op")
+    | ["conn", txs] =>
+      match listOf btxOf txs with
+      | some ts => chainStep (.connect ts)
+      | none => (s, "bad-op")
+    | ["disc", n] => chainStep (.disconnect (nat! n))
+    | ["rebc"] => chainStep .rebroadcast
+    | ["reload"] => chainStep .reload
+    | _ => (s, "bad-op")
 
 end Ldk.Driver
